@@ -11,11 +11,11 @@ ID = 'C09'
 LEAN_MODULE = 'PncProofs.C09'
 LEAN_FILE = 'PncProofs/C09.lean'
 NAMESPACE = 'Props.C09'
-LEAN_CONE = ['PncModel.Words', 'PncModel.Camx.Landuse', 'PncModel.Camx.Uamiv', 'PncModel.Camx.Slab', 'PncProofs.WordsLemmas', 'PncProofs.LanduseLemmas', 'PncProofs.LanduseThms', 'PncProofs.UamivLemmas', 'PncProofs.C09']
+LEAN_CONE = ['PncModel.Words', 'PncModel.Camx.Landuse', 'PncModel.Camx.WindRead', 'PncModel.Camx.CloudRainRead', 'PncProofs.WindLemmas', 'PncProofs.CloudRainLemmas', 'PncModel.Camx.Uamiv', 'PncModel.Camx.Slab', 'PncProofs.WordsLemmas', 'PncProofs.LanduseLemmas', 'PncProofs.LanduseThms', 'PncProofs.UamivLemmas', 'PncProofs.C09']
 LEMMA_FILES = ['PncProofs/WordsLemmas.lean', 'PncProofs/UamivLemmas.lean', 'PncProofs/LanduseLemmas.lean', 'PncProofs/LanduseThms.lean']
 REQUIRED_THEOREMS = ['tiles', 'header_counts', 'refDecode_encode', 'slab_tiles', 'slab_record_content', 'cloud_rain_tiles',
                      'cloud_rain_counts', 'wind_tiles', 'wind_step_shape', 'boundary_tiles', 'boundary_counts',
-                     'landuse_tiles', 'landuse_counts', 'landuse_read']
+                     'landuse_tiles', 'landuse_counts', 'landuse_read', 'wind_read', 'cloud_rain_read']
 RULE = ('uamiv files (all four NAME variants, 1-3 species with names up to 10 characters, nx, ny 1-4, nz 1-3, '
         '1-3 steps, begin/end flags with and without ETFLAG, any finite float32 payload incl. denormals and -0): '
         'kind write = library writer bytes vs the Lean encoder and an independent python record walker; kind '
@@ -409,14 +409,20 @@ def agree(case, out, res):
     if case['kind'] == 'land':
         return L.agree(case, out, res)
     if case['kind'] == 'wread':
-        return None if out == 'ok ' + res['hex'] else 'the python reference encoder and the Lean wind encoder differ'
+        if out != 'ok ' + res['hex']:
+            return 'the python reference encoder and the Lean wind encoder differ'
+        return S.wind_model_diff(case, res['hex'], res['memmap'])
     if case['kind'] == 'cread' and _cr_ambiguous(case):
         return None
     if 'err' in res:
         return None if out.startswith('err') else 'impl raised %s (%s), model %s' % (res['err'], res.get('msg'), out[:60])
     if not out.startswith('ok '):
         return 'model %s, impl returned' % out[:60]
-    if case['kind'] in ('cread', 'bnd'):
+    if case['kind'] == 'cread':
+        if out[3:] != res['hex']:
+            return 'the python reference encoder and the Lean encoder differ'
+        return _cr_model_diff(case, res)
+    if case['kind'] == 'bnd':
         return None if out[3:] == res['hex'] else 'the python reference encoder and the Lean encoder differ'
     if case['kind'] in ('swrite', 'cwrite', 'wwrite'):
         return None if out[3:] == res['hex'] else 'writer bytes differ from the reference encoding (first difference at byte %d)' % _firstdiff(out[3:], res['hex'])
@@ -431,6 +437,32 @@ def agree(case, out, res):
     if case['kind'] == 'write':
         return None if out[3:] == res['hex'] else 'writer bytes differ from the reference encoding (first difference at byte %d)' % _firstdiff(out[3:], res['hex'])
     return camx.diff_view(out, res)
+
+
+def _cr_model_diff(case, res):
+    """the cloud/rain Memmap reader against the Lean reader model on the same bytes"""
+    out = lib.run_model(['bin cr-read ' + res['hex']])[0]
+    if not out.startswith('ok '):
+        return 'Lean cloud/rain reader model: %s, the library read the file' % out[:40]
+    _, kv = lib.parse_kv('x ' + out[3:])
+    if (int(kv['nx']), int(kv['ny']), int(kv['nz'])) != (res['nx'], res['ny'], res['nz']):
+        return 'grid model=%s,%s,%s reader=%s,%s,%s' % (kv['nx'], kv['ny'], kv['nz'], res['nx'], res['ny'], res['nz'])
+    steps = [] if kv['steps'] == '-' else kv['steps'].split('|')
+    if len(steps) != res['nt']:
+        return 'steps model=%d reader=%d' % (len(steps), res['nt'])
+    nv = len(case['names'])
+    for t, st in enumerate(steps):
+        _, _, slabs = st.split(':')
+        rows = slabs.split(',')
+        if len(rows) != res['nz'] * nv:
+            return 'step %d: model has %d slabs, the reader %d layers x %d variables' % (t, len(rows), res['nz'], nv)
+        for z in range(res['nz']):
+            for vi, k in enumerate(case['names']):
+                r = rows[z * nv + vi]
+                ws = [int(r[i:i + 8], 16) for i in range(0, len(r), 8)] if r != '-' else []
+                if ws != res['vars'][k][t][z]:
+                    return 'step %d layer %d %s: the reader differs from the Lean reader model' % (t, z, k)
+    return None
 
 
 def _firstdiff(a, b):
